@@ -1,7 +1,39 @@
-(** C09 — statements; see Proofs/ *)
-From Wasp Require Import Model.Base Model.DState.
-From stdpp Require Import list.
+(** C09 — Every local state change is carried completely by the broadcasts it queues. Statements only. *)
+From Wasp Require Import Model.Base Spec.MatchSpec Model.DState Proofs.BaseFacts Proofs.Lww Proofs.DStateFacts.
+From stdpp Require Import list strings.
 Open Scope Z_scope.
-Theorem C09_placeholder_ts_max : ∀ la ld, la ≤ last_update la ld ∧ ld ≤ last_update la ld.
-Proof. intros la ld. unfold last_update. destruct (Z.ltb_spec ld la); lia. Qed.
-Print Assumptions C09_placeholder_ts_max.
+
+(** One operation.  [d] is the node, [r] any replica holding the same entries ([same_abs]).
+    [dapply d o] returns the new state and the broadcast queued (None: the operation changed
+    nothing, e.g. Create of an existing session).  Merging that one broadcast into [r] yields the
+    same entries as the node now holds: no change takes effect locally without a broadcast that
+    conveys it, and every entry touched by a bulk change (DeletePeer, DeleteSession) is in it.
+    [clock_fresh]: the node's clock reading exceeds the timestamps of the SESSION entries the
+    operation replaces (sessions are written unconditionally; subscriptions and retained
+    messages need no such premise).  [dok]: representation invariant, preserved. *)
+Theorem broadcast_complete_step : ∀ d r o, dok d → dok r → same_abs d r → op_valid o → clock_fresh d o →
+  let res := dapply d o in
+  dok res.1 ∧
+  match res.2 with
+  | Some e => ev_valid e ∧ same_abs res.1 (merge_event r e)
+  | None => res.1 = d
+  end.
+Proof. exact broadcast_complete. Qed.
+Print Assumptions broadcast_complete_step.
+
+(** Any sequence of operations: a second node that merges the broadcasts queued by those
+    changes holds the same entries as the first (with C08: in any delivery order). *)
+Theorem receiver_equals_origin : ∀ os d r, dok d → dok r → same_abs d r → ops_ok d os →
+  let res := origin_run d os in
+  dok res.1 ∧ Forall ev_valid res.2 ∧ same_abs res.1 (fold_left merge_event res.2 r).
+Proof. exact receiver_equals_origin. Qed.
+Print Assumptions receiver_equals_origin.
+
+(** non-vacuity: a bulk removal touching two entries *)
+Example c09_history :
+  let os := [DSubCreate "s1" "mp/a" 1 10; DSubCreate "s1" "mp/b" 0 11; DSubCreate "s2" "mp/a" 2 12; DSubDeleteSession "s1" 13] in
+  ops_ok (dnew 1) os ∧
+  let res := origin_run (dnew 1) os in
+  map s_sid (sub_all res.1) = ["s2"] ∧ map s_sid (sub_all (fold_left merge_event res.2 (dnew 2))) = ["s2"]
+  ∧ length (b_subs (nth 3 res.2 ev_empty)) = 2%nat.
+Proof. vm_compute. repeat split; done. Qed.
